@@ -1,0 +1,13 @@
+//go:build verif
+
+package grammar
+
+// VerifParse is Parse with the parser's step counter (Stats.ExprCnt) returned
+// as well. It exists only under the verif build tag and is used by the
+// verification harness in /verif to compare the real parser's work with the
+// model's.
+func VerifParse(filename string, b []byte, opts ...Option) (any, error, uint64) {
+	p := newParser(filename, b, opts...)
+	val, err := p.parse(g)
+	return val, err, p.ExprCnt
+}
